@@ -43,6 +43,25 @@ class VLoop(asyncio.BaseEventLoop):
     def _on_exc(self, loop, context) -> None:
         self.unhandled.append(context)
 
+    def run_in_executor(self, executor, func, *args):
+        """No real threads under the virtual loop: work handed to an
+        executor runs as a separate loop iteration (a genuine suspension
+        point for the caller, completing at the next iteration -- the default
+        environment answer)."""
+        fut = self.create_future()
+
+        def _run() -> None:
+            if fut.cancelled():
+                return
+            try:
+                res = func(*args)
+            except BaseException as exc:   # noqa: BLE001
+                fut.set_exception(exc)
+            else:
+                fut.set_result(res)
+        self.call_soon(_run)
+        return fut
+
     # -- stepping ----------------------------------------------------------
     def _move_due_timers(self) -> None:
         sched = self._scheduled
